@@ -258,7 +258,7 @@ def check_conformity(repo: Repo, rep: Report, tier="quick"):
             findings[(c, key)] = dict(message=msg, witness=wit, line=line, count=0)
         findings[(c, key)]["count"] += 1
 
-    def run(shape, seed, part, start, delta, path_type, rename=False):
+    def run(shape, seed, part, start, delta, path_type, rename=False, alphas=alphas):
         vals = PARTITIONS[part]
         names = {"x": "x", "y": "y", "z": "z"} if not rename else {"x": "y", "y": "z", "z": "x"}
         sent = {v: SentinelV("label:" + names[v]) for v in set(vals)}
@@ -351,6 +351,31 @@ def check_conformity(repo: Repo, rep: Report, tier="quick"):
                         sc2 = _scores(val2) if r2 is None else "raised"
                         if sc2 != sc:
                             add(construct, "label-renaming", "renaming the label values changes the result from %s to %s" % (sc, sc2), wit)
+    # damping factors that share their '%.2f' key (and a plain duplicate): still one entry per key, scores in range
+    n_dup = 0
+    for dup in ([1.0, 1.001], [2.5, 2.5]):
+        shape = CONF_SHAPE
+        keys = sorted({shape.key(*e) for e in shape.edges}, key=str)
+        for seed in list(_seeds(shape, None))[:: (7 if tier == "quick" else 1)]:
+            pres = ", ".join("%s-%s@t%+d" % (k[0], k[1], o) for k in keys for o in IDS if seed[("present", k, repr(T(o)))]) or "nothing"
+            wit = "%s | present: %s | start=t+1, delta=3, alphas=%s, uniform labels" % (shape.name, pres, dup)
+            n_dup += 1
+            w, val, r = run(shape, seed, "uniform", 1, 3, "shortest", alphas=dup)
+            if r is not None:
+                add(construct, "raises:%s" % r.exc, "delta_conformity raises %s (%s)" % (r.exc, r.detail), wit, getattr(r.node, "lineno", 0))
+                continue
+            sc = _scores(val)
+            if sc is None or sc == "bad":
+                continue
+            if sorted(sc) != sorted({"%.2f" % a for a in dup}):
+                add(construct, "skeleton:keys", "the result is keyed %s, expected one entry per distinct '%%.2f' key of %s" % (sorted(sc), dup), wit)
+                continue
+            for a, d in sc.items():
+                for n, s_ in d.get("label", {}).items():
+                    if not (-1 - 1e-9 <= s_ <= 1 + 1e-9):
+                        add(construct, "range:alphas-sharing-a-key", "alphas %s share the key %r: the score of %s is %r, outside [-1, 1]" % (
+                            dup, a, n, s_), wit)
+    stats["runs"] += n_dup
     for (c, key), f in sorted(findings.items()):
         rep.finding("Q.conformity", c, key, f["message"] + " [%d cases]" % f["count"], witness=f["witness"], line=f["line"])
     rep.ob("Q.conformity", construct, "skeleton / range / uniform labels / label renaming on %d interpreted calls (%d with scores, %d None)" % (
